@@ -717,12 +717,33 @@ Print Assumptions C01_network_parse_complete_shape.
    construction and in add_filter alike; the hit test of check / check_all IS Net_Model.hit *)
 From Adb Require Struct_List_Proofs.
 Theorem C01_src_best_token_is_model : forall (cnt : N -> option N) (total : N) (g : list N),
+  Struct_List_Proofs.strict_arms ListGen.new_arms && Struct_List_Proofs.strict_arms ListGen.add_filter_arms = true ->
   (match Struct_List_Proofs.init_of ListGen.new_best_init ListGen.new_min_init total with
    | Some st => Some (Struct_List_Proofs.run_group ListGen.new_arms cnt g st) | None => None end) = Some (best_token cnt total g)
   /\ (match Struct_List_Proofs.init_of ListGen.add_filter_best_init ListGen.add_filter_min_init total with
       | Some st => Some (Struct_List_Proofs.run_group ListGen.add_filter_arms cnt g st) | None => None end) = Some (best_token cnt total g).
 Proof. exact Struct_List_Proofs.best_token_is_model. Qed.
 Print Assumptions C01_src_best_token_is_model.
+
+(* whichever comparison the "token already has a bucket" arm uses (`<` today; `<=` only changes
+   which of two equally rare tokens wins): the extracted loop is best_loop_cmp of that comparison,
+   and the token a group is filed under is one of the group's own or 0 - the one fact about the
+   choice that the index theorems (fold_place_well_indexed) use *)
+Theorem C01_src_best_token_loop_any_tie_break : forall (cnt : N -> option N) (g : list N) (best minc : N),
+  Struct_List_Proofs.run_group ListGen.new_arms cnt g (best, minc)
+  = Struct_List_Proofs.best_loop_cmp (Struct_List_Proofs.cmp_of ListGen.new_arms) cnt g best minc
+  /\ Struct_List_Proofs.run_group ListGen.add_filter_arms cnt g (best, minc)
+    = Struct_List_Proofs.best_loop_cmp (Struct_List_Proofs.cmp_of ListGen.add_filter_arms) cnt g best minc.
+Proof. intros; split; [apply Struct_List_Proofs.run_group_is_best_loop_cmp_new | apply Struct_List_Proofs.run_group_is_best_loop_cmp_add]. Qed.
+Print Assumptions C01_src_best_token_loop_any_tie_break.
+
+Theorem C01_src_chosen_token_key_ok : forall (cnt : N -> option N) (total : N) (g : list N),
+  (match Struct_List_Proofs.init_of ListGen.new_best_init ListGen.new_min_init total with
+   | Some st => key_ok g (Struct_List_Proofs.run_group ListGen.new_arms cnt g st) | None => False end)
+  /\ (match Struct_List_Proofs.init_of ListGen.add_filter_best_init ListGen.add_filter_min_init total with
+      | Some st => key_ok g (Struct_List_Proofs.run_group ListGen.add_filter_arms cnt g st) | None => False end).
+Proof. exact Struct_List_Proofs.chosen_token_key_ok. Qed.
+Print Assumptions C01_src_chosen_token_key_ok.
 
 Theorem C01_src_lookup_structure_is_model : forall (matches : rule -> bool) (tags : list str) (f : rule),
   Struct_List_Proofs.hit_of ListGen.check_hit matches tags f = Some (hit matches tags f)
